@@ -1,0 +1,34 @@
+//go:build verif
+
+package par
+
+// Contracts for the verification machinery in /verif (comment-only file;
+// excluded from every build without the "verif" tag).
+
+// C14: the work set visits each item once. added/todo/waiting are touched only
+// under w.mu; everything queued has been marked added, and the queue holds no
+// item twice — so an item is handed to a runner at most once.
+//@ monitor (*Work).mu guards added, todo, waiting invariant (forall k int :: 0 <= k && k < len(self.todo) ==> inDom(self.added, self.todo[k]) && self.added[self.todo[k]]) && (forall j, k int :: 0 <= j && j < k && k < len(self.todo) ==> self.todo[j] != self.todo[k]) rely forall x T :: old(inDom(self.added, x) && self.added[x]) ==> inDom(self.added, x) && self.added[x]
+
+// ownership: the queue arrays of a work set are private to it (todo is an
+// unexported field that only Add and the runners touch)
+//@ spec func isQueueArray(b int) bool
+
+//@ func (*Work).init
+//@   requires_lock (*Work).mu
+//@   requires w != nil
+//@   ensures w.added != nil && (old(w.added) != nil ==> w.added == old(w.added))
+//@   ensures old(w.added) == nil ==> forall x T :: !inDom(w.added, x)
+//@   assigns w.added
+
+//@ func (*sync.Cond).Signal
+//@   assumed A-ext sync.Cond: wakes a waiter; no effect on program-visible memory
+
+// (P) C14 "visits each module version once": Add marks the item and queues it
+// only if it had not been added before
+//@ func (*Work).Add
+//@   requires w != nil
+//@   ensures inDom(w.added, item) && w.added[item]
+//@   ensures [monotone] forall x T :: old(inDom(w.added, x) && w.added[x]) ==> inDom(w.added, x) && w.added[x]
+//@   ensures_assumed forall b int :: !isQueueArray(b) ==> elemsAt(w.todo, b) == old(elemsAt(w.todo, b))
+//@   assigns heap
